@@ -81,7 +81,7 @@ class LogState:
         root = logging.getLogger()
         self.root_handlers = list(root.handlers)
         self.root_level = root.level
-        self.reopenable = list(loghandler._reopenable_handlers)
+        self.reopenable = list(getattr(loghandler, "_reopenable_handlers", []))
         self.names = set(logging.Logger.manager.loggerDict)
         self.tmp = tempfile.mkdtemp(prefix="zcv-c20-")
         return self
@@ -106,12 +106,21 @@ class LogState:
                     except Exception:
                         pass
                 del logging.Logger.manager.loggerDict[n]
-        self.lh._reopenable_handlers[:] = self.reopenable
+        if hasattr(self.lh, "_reopenable_handlers"):
+            self.lh._reopenable_handlers[:] = self.reopenable
         shutil.rmtree(self.tmp, ignore_errors=True)
 
 
 def load(text):
     return loadcheck.real_load(schema(), text, url=None)
+
+
+def _raised_in_logger_component(exc):
+    import traceback
+    for fr in traceback.extract_tb(exc.__traceback__):
+        if "/components/logger/" in fr.filename.replace("\\", "/"):
+            return True
+    return False
 
 
 def unescape(fmt):
@@ -247,7 +256,7 @@ def check_config(cfg, ops, tmp, ls):
                     verdict = "format-dependent"
     got = load(text)
     if got[0] == "internal":
-        if got[3].startswith(("formatter.", "handlers.", "string.", "__init__.")) or got[2].startswith(("formatter.", "handlers.")):
+        if _raised_in_logger_component(got[1]):
             # raised by a datatype function of the logger component itself while the section is
             # converted: the section is refused (pass-through clause of C07)
             got = ("reject", got[1])
@@ -416,8 +425,6 @@ def check_config(cfg, ops, tmp, ls):
                     if h not in ls.root_handlers:
                         lg.removeHandler(h)
                 live[:] = [(h, s) for h, s in live if h not in mine]
-                n_before = len(loghandler._reopenable_handlers)
-                alive_expected = [h for h in mine if not getattr(h, "_zcv_closed", False)]
                 factories[i] = None
                 del mine
                 h = None
